@@ -248,6 +248,39 @@ C11Two(i) ==
 AltFS11 == ("i2" :> FSOfAlt(ModSeq))
 (* ---- Round 3 (C11) end ---------------------------------------------------- *)
 
+(* ---- Round 4 (C11) begin: the module object as a snapshot made by every require --
+   (SessionOps, block "Round 4 (C11)": the reassigned public definition m_cnt.)
+   NowVars(i, d): the top-level scope of the loaded module d of interpreter i
+   with m_cnt at its present value (= the number of bumps, ctr).  It is what a
+   require binds from (ReqBind) and what BindsExactly compares with.
+   ModObj: the module object a qualified require binds (a definition, so that
+   a configuration can substitute the deviation ModAtLoad).
+   Importer command mset:  n->d_cnt = 5  for a name n that holds a module
+   object of d - a member assignment on the importer's own object.  (C11Mem;
+   the direct member READ n->d_cnt is part of every observation: Obs.mem.)  *)
+NowVars(i, d) ==
+  LET mv == mods[i][d].vars
+  IN IF NCnt(d) \in DOMAIN mv THEN (NCnt(d) :> [mv[NCnt(d)] EXCEPT !.v = mods[i][d].ctr]) @@ mv ELSE mv
+ModObj(d, nowvars) == ModOf(d, nowvars)
+\* What the scope of a loaded module holds of OTHER modules' m_cnt (a value its
+\* own `require .. unqualified` copied, a module object its own qualified
+\* require made): fixed when the module was loaded, it depends on the ORDER in
+\* which the modules were loaded, so it belongs to the exported key of an idle
+\* state (Key.mv) - two histories that agree on everything else must not be
+\* merged by the harness.  (Empty wherever no module has the statement vals.)
+SnapNames(i, id) == {x \in DOMAIN mods[i][id].vars :
+                       mods[i][id].vars[x].k \in {"sym", "mod"} /\ mods[i][id].vars[x].v # 0}
+ModSnaps(i) == [id \in {d \in DOMAIN mods[i] : SnapNames(i, d) # {}} |->
+                  [x \in SnapNames(i, id) |-> mods[i][id].vars[x].v]]
+C11Mem(i, ids) ==
+  { Cmd("mset", i, n, MSetVal, "", "") : n \in UNION {{m, Alias(m)} : m \in ids} \cup {NShared} }
+C11Cmds4(i)  == C11Cmds3(i)  \cup C11Mem(i, ModIds)
+C11Entry4(i) == C11Entry3(i) \cup C11Mem(i, ModIds)
+C11Spell4(i) == C11Spell3(i) \cup C11Mem(i, {ModSeq[1]})
+                \cup { Cmd("bump", i, NBump(ModSeq[1]), 1, "", "") }   \* unqualified ; ma_bump() ; unqualified
+C11Two4(i)   == C11Two(i)    \cup C11Mem(i, ModIds)
+(* ---- Round 4 (C11) end ---------------------------------------------------- *)
+
 Cmds == UNION {CmdsOf(i) : i \in Interps}
 
 \* sp = the module name as spelled in the require statement (round 3 (C11):
@@ -265,7 +298,8 @@ VStr(x) == x.k \o ":" \o x.id \o ":" \o x.n \o ":" \o ToString(x.v)
 Key == [s |-> [i \in Interps |-> [n \in DOMAIN sess[i] |-> VStr(sess[i][n])]],
         m |-> [i \in Interps |-> [id \in DOMAIN mods[i] |-> mods[i][id].ctr]],
         k |-> mstack, l |-> loads, g |-> gen, n |-> nreq, e |-> cal.ev,
-        ne |-> cal.nev (* round 3 *)]
+        ne |-> cal.nev (* round 3 *),
+        mv |-> [i \in Interps |-> ModSnaps(i)] (* round 4 (C11) *)]
 
 \* what a failed call may not change when it is repeated (load counters are
 \* the harness's instrumentation, not interpreter state)
@@ -386,8 +420,24 @@ BumpOk(c) == /\ Has(c, c.n)
                 \/ S(c)[c.n].k = "sym" /\ S(c)[c.n].n = NBump(S(c)[c.n].id)
 
 FailDefOps == {"defbad", "assignbad", "destrbad", "classbad"}     \* round 3
+(* ---- Round 4 (C11) begin: when the command mset is taken -----------------------
+   c.n holds a module object of a generated module d, and that object is the
+   importer's alone: no loaded module holds a module object of d in its own
+   scope (`require mb unqualified` binds the very object mb's own `require d`
+   made, so an assignment through the importer's name would show in mb's
+   scope as well - sharing of ONE object that the statement does not speak
+   about and this model, which copies values, does not follow).              *)
+MSetOk(c) ==
+  /\ Has(c, c.n)
+  /\ S(c)[c.n].k = "mod"
+  /\ LET d == S(c)[c.n].id IN
+       /\ d \in DOMAIN mods[c.i]
+       /\ NCnt(d) \in DOMAIN mods[c.i][d].vars
+       /\ \A m \in DOMAIN mods[c.i] : \A x \in DOMAIN mods[c.i][m].vars :
+             ~(mods[c.i][m].vars[x].k = "mod" /\ mods[c.i][m].vars[x].id = d)
+(* ---- Round 4 (C11) end ---------------------------------------------------- *)
 AtomicOps == {"def", "assign", "read", "deffn", "call", "failexpr", "syntax", "loop", "bump"} \cup EnvOps
-             \cup FailDefOps \cup {"defclass", "new"}
+             \cup FailDefOps \cup {"defclass", "new"} \cup {"mset" (* round 4 (C11) *)}
 
 NewScope(c) ==
   CASE c.op = "def"      -> (c.n :> IntV(c.v)) @@ S(c)
@@ -404,6 +454,7 @@ NewScope(c) ==
     [] c.op = "defclass" -> (c.n :> ObjV(c.v)) @@ ((c.n \o "_m") :> IntV(c.v))
                             @@ ((c.n \o "_get") :> FnV(c.n \o "_get")) @@ S(c)
     [] c.op = "new"      -> ("secret" :> IntV(1))
+    [] c.op = "mset"     -> (c.n :> [S(c)[c.n] EXCEPT !.v = c.v]) @@ S(c)   \* round 4 (C11): n->d_cnt = 5
     [] OTHER             -> S(c)
 
 Outcome(c) ==
@@ -425,6 +476,7 @@ Outcome(c) ==
     [] c.op \in FailDefOps -> Err("undef", "nosuch")
     [] c.op = "defclass" -> Val("obj", c.v)
     [] c.op = "new"      -> Val("int", 1)           \* (the set-up call def secret = 1)
+    [] c.op = "mset"     -> Val("mod", 0)           \* round 4 (C11): a member assignment yields the object
     [] OTHER (* bump *)  -> IF ~Has(c, c.n) THEN Err("undef", c.n)
                             ELSE Val("int", mods[c.i][BumpTarget(c)].ctr + 1)
 
@@ -434,6 +486,7 @@ Atomic(c, e) ==
   /\ Born(c.i) = (c.op # "new")                   \* round 3
   /\ c.op = "bump" => /\ (Has(c, c.n) \/ c.v = 0)
                       /\ Has(c, c.n) => (BumpOk(c) /\ mods[c.i][BumpTarget(c)].ctr < MaxCtr)
+  /\ c.op = "mset" => MSetOk(c)                   \* round 4 (C11)
   /\ sess' = [sess EXCEPT ![c.i] = NewScope(c)]
   /\ mods' = IF c.op = "bump" /\ Has(c, c.n)
              THEN [mods EXCEPT ![c.i][BumpTarget(c)].ctr = @ + 1] ELSE mods
@@ -552,13 +605,14 @@ Bindings(form, d, nm, mv) ==
          LET sc  == ImportScope(mv)
              hit == {p \in ImpListOf(form, d) : p[1] \in DOMAIN sc /\ ~Underscore(p[1])}
          IN [b \in {p[2] : p \in hit} |-> sc[(CHOOSE p \in hit : p[2] = b)[1]]]
-    [] form = "as"  -> (Alias(nm) :> ModV(d))
-    [] form = "asx" -> (NShared :> ModV(d))          \* round 3 (C11)
-    [] OTHER        -> (nm :> ModV(d))
+    \* round 4 (C11): ModObj(d, mv), the object made now from mv = NowVars (was: ModV(d))
+    [] form = "as"  -> (Alias(nm) :> ModObj(d, mv))
+    [] form = "asx" -> (NShared :> ModObj(d, mv))    \* round 3 (C11)
+    [] OTHER        -> (nm :> ModObj(d, mv))
 
 ReqBind(e) ==
   /\ Stepping("bind")
-  /\ LET b == Bindings(Top.form, Top.id, Top.nm, mods[I][Top.id].vars) IN
+  /\ LET b == Bindings(Top.form, Top.id, Top.nm, NowVars(I, Top.id) (* round 4 (C11): was mods[I][Top.id].vars *)) IN
      IF Depth = 1
      THEN /\ sess' = [sess EXCEPT ![I] = Rebind(b, @) (* round 3 (C11): b @@ @, the new bindings win *)]
           /\ UNCHANGED <<mods, mstack, loads, gen, nreq, fs, cal>>
@@ -671,7 +725,8 @@ RenderSym(i, x) ==
          LET body == FSI(i)[x.id].body
              st == body[CHOOSE j \in DOMAIN body : body[j].op = "vals"]
              vk == ValKindOf(x.id, x.n)
-         IN [k |-> IF vk \in {"common", "zero"} THEN "int" ELSE vk, r |-> ValR(vk, x.id, st.id)]
+         IN IF vk = "cnt" THEN [k |-> "int", r |-> x.v]     \* round 4 (C11): the value it had when it was bound
+            ELSE [k |-> IF vk \in {"common", "zero"} THEN "int" ELSE vk, r |-> ValR(vk, x.id, st.id)]
     [] OTHER (* rdr *) ->
          LET st == FSI(i)[x.id].body[SymStmt(FSI(i), x.id, x.n)]
          IN [k |-> "call", r |-> Ctr(i, Target(mods[i][x.id].vars, st))]
@@ -687,8 +742,14 @@ Obs(i) ==
      [v |-> Render(i, sess[i][n]),
       mem |-> IF sess[i][n].k = "mod"
               THEN LET mv == mods[i][sess[i][n].id].vars
-                   IN [x \in Exposed(FSI(i), mv) |-> Render(i, mv[x])]
+                   IN [x \in Exposed(FSI(i), mv) |->
+                         \* round 4 (C11): the member d_cnt is the object's own (what the require
+                         \* that made it found, or what mset assigned), not the module's present value
+                         IF x = NCnt(sess[i][n].id) THEN [k |-> "int", r |-> sess[i][n].v]
+                         ELSE Render(i, mv[x])]
               ELSE NoMem,
+      \* round 4 (C11): the module's present d_cnt (an object that FOLLOWS the module would show it)
+      live |-> IF sess[i][n].k = "mod" THEN Ctr(i, sess[i][n].id) ELSE 0,
       \* which module instance a module object shows (names with the same `of`
       \* must show the very same members) and whether mem lists them all
       of   |-> IF sess[i][n].k = "mod" THEN sess[i][n].id ELSE "",
@@ -724,7 +785,7 @@ FailLeavesNoResidue == ctl.ph = "done" => ctl.snap = Snap
 \* C10: names never disappear; a binding changes only by a command that defines
 \* or assigns that very name (or binds it through require)
 Rebinder(j, n) ==
-  \/ \E c \in CmdsOf(j) : /\ c.op \in {"def", "assign", "deffn", "failexpr", "loop", "defclass"}
+  \/ \E c \in CmdsOf(j) : /\ c.op \in {"def", "assign", "deffn", "failexpr", "loop", "defclass", "mset" (* round 4 (C11) *)}
                           /\ (c.n = n \/ (c.op = "loop" /\ n = "i")
                                       \/ (c.op = "defclass" /\ n \in {c.n \o "_m", c.n \o "_get"}))
                           /\ Atomic(c, FALSE)
@@ -754,7 +815,7 @@ BindsExactlyAct ==
   Stepping("bind") =>
     LET d == Top.id
         f == Top.form
-        mv == mods[I][d].vars
+        mv == NowVars(I, d)      \* round 4 (C11): the definitions as they are now (was mods[I][d].vars)
         before == ImporterScope
         after == IF Depth = 1 THEN sess'[I] ELSE ctl'.act[Depth - 1].env
         den == Denotes(FSI(I), f, Top.nm, mv)
